@@ -106,9 +106,21 @@ theorem mapM_sampleGt (gts : List GtRes) (hg : ∀ g ∈ gts, WfGt g) :
   | cons g gs ih =>
     simp [List.mapM_cons, sampleGt_renderGt g (hg g (by simp)), ih (fun g' hg' => hg g' (by simp [hg']))]
 
+theorem splitBytes58_renderGt (g : GtRes) (h : WfGt g) : splitBytes 58 (renderGt g) = [renderGt g] := by
+  rcases renderGt_cases g h with ⟨_, e⟩ | ⟨_, e⟩ | ⟨_, e⟩ | ⟨_, e⟩ | ⟨_, e⟩ | ⟨_, e⟩ <;> rw [e] <;> decide
+
+theorem contigChars_ok (c : String) (hc : WfContig c) :
+    c.toList.all (fun ch => ch.isAlphanum || ch == '_' || ch == '.' || ch == '-') = true := by
+  simp only [List.all_eq_true, Bool.or_eq_true, beq_iff_eq]
+  intro ch hch
+  rcases hc.2 ch hch with h | h | h
+  · exact .inl (.inl (.inl h))
+  · exact .inl (.inl (.inr h))
+  · exact .inl (.inr h)
+
 theorem parseVcfRecord_recLine (c : String) (hc : WfContig c) (p : Nat) (hp : 1 ≤ p) (gts : List GtRes)
     (hne : gts ≠ []) (hg : ∀ g ∈ gts, WfGt g) :
-    parseVcfRecord (recLine c p gts) = some (.gts c p gts) := by
+    parseVcfRecord gts.length (recLine c p gts) = some (.gts c p gts) := by
   have hs : (gts.map renderGt).isEmpty = false := by
     cases gts with
     | nil => exact absurd rfl hne
@@ -118,12 +130,29 @@ theorem parseVcfRecord_recLine (c : String) (hc : WfContig c) (p : Nat) (hp : 1 
   have hb1 : isBases [65] = true := by decide
   have hb2 : splitBytes 44 [67] = [[67]] := by decide
   have hb3 : isBases [67] = true := by decide
-  have hkeys : (splitBytes 58 [71, 84]).idxOf? (strBytes "GT") = some 0 := by decide
+  have hk0 : splitBytes 58 [71, 84] = [[71, 84]] := by decide
+  have hk1 : formatKeyOk [71, 84] = true := by decide
+  have hkeys : ([[71, 84]] : List (List Nat)).idxOf? (strBytes "GT") = some 0 := by decide
+  have hp' : ¬ p < 1 := by omega
+  have htake : List.take gts.length (List.map renderGt gts) = List.map renderGt gts :=
+    List.take_of_length_le (by rw [List.length_map]; exact Nat.le_refl _)
+  have hm : List.mapM (sampleGt (some 0) ∘ renderGt) gts = some gts := by
+    simpa using mapM_sampleGt gts hg
   unfold parseVcfRecord
   rw [splitBytes_recLine c hc p gts hg]
-  simp only [wfContig_ascii hc, hcne, bytesNat_natBytes, hs, hkeys, mapM_sampleGt gts hg]
-  simp [hp, hb1, hb2, hb3]
-
+  simp only [wfContig_ascii hc, hcne, contigChars_ok c hc, bytesNat_natBytes, hs, hk0, hkeys]
+  simp [hp', hb1, hb2, hb3, hk1, hasDupEntry, htake]
+  split
+  · rename_i h
+    obtain ⟨g, hgm, _, hl⟩ := h
+    rw [splitBytes58_renderGt g (hg g hgm)] at hl
+    simp at hl
+  · split
+    · rename_i h
+      obtain ⟨g, hgm, _, y, hy, _⟩ := h
+      rw [splitBytes58_renderGt g (hg g hgm)] at hy
+      simp at hy
+    · rw [hm]
 
 theorem recLine_bytes (c : String) (hc : WfContig c) (p : Nat) (gts : List GtRes) (hg : ∀ g ∈ gts, WfGt g) :
     ∀ b ∈ recLine c p gts, b ≠ 10 ∧ b ≠ 13 := by
@@ -148,16 +177,18 @@ theorem recLine_isEmpty (c : String) (hc : WfContig c) (p : Nat) (gts : List GtR
 def recLines (recs : List (String × Nat × List GtRes)) : List (List Nat) := recs.map (fun r => recLine r.1 r.2.1 r.2.2)
 
 theorem parseVcfRecords_recLines (recs : List (String × Nat × List GtRes))
-    (hr : ∀ r ∈ recs, WfContig r.1 ∧ 1 ≤ r.2.1 ∧ r.2.2 ≠ [] ∧ ∀ g ∈ r.2.2, WfGt g) :
-    parseVcfRecords (recLines recs) = some (toRecs recs) := by
+    (n : Nat) (hr : ∀ r ∈ recs, WfContig r.1 ∧ 1 ≤ r.2.1 ∧ r.2.2 ≠ [] ∧ (∀ g ∈ r.2.2, WfGt g) ∧ r.2.2.length = n) :
+    parseVcfRecords n (recLines recs) = some (toRecs recs) := by
   induction recs with
   | nil => rfl
   | cons r rs ih =>
-    obtain ⟨h1, h2, h3, h4⟩ := hr r (by simp)
+    obtain ⟨h1, h2, h3, h4, h5⟩ := hr r (by simp)
     have ih' := ih (fun r' hr' => hr r' (by simp [hr']))
+    have hrec := parseVcfRecord_recLine r.1 h1 r.2.1 h2 r.2.2 h3 h4
+    rw [h5] at hrec
     simp only [recLines, List.map_cons] at ih' ⊢
     unfold parseVcfRecords
-    simp only [recLine_isEmpty r.1 h1, parseVcfRecord_recLine r.1 h1 r.2.1 h2 r.2.2 h3 h4, ih']
+    simp only [recLine_isEmpty r.1 h1, hrec, ih']
     simp [toRecs]
 
 theorem vcfEncode_eq_lines (cols contigs : List String) (recs : List (String × Nat × List GtRes)) :
@@ -173,10 +204,10 @@ theorem vcfDecode_vcfEncode (cols contigs : List String) (recs : List (String ×
     (h : WfCallSet cols contigs recs) :
     vcfDecode (vcfEncode cols contigs recs) = some (cols, toRecs recs) := by
   have hcw : ∀ c ∈ contigs, WfContig c := h.contigs_wf
-  have hr : ∀ r ∈ recs, WfContig r.1 ∧ 1 ≤ r.2.1 ∧ r.2.2 ≠ [] ∧ ∀ g ∈ r.2.2, WfGt g := by
+  have hr : ∀ r ∈ recs, WfContig r.1 ∧ 1 ≤ r.2.1 ∧ r.2.2 ≠ [] ∧ (∀ g ∈ r.2.2, WfGt g) ∧ r.2.2.length = cols.length := by
     intro r hrm
     obtain ⟨h1, h2, h3, h4⟩ := h.recs_wf r hrm
-    refine ⟨hcw _ h1, h2, ?_, h4⟩
+    refine ⟨hcw _ h1, h2, ?_, h4, h3⟩
     intro e
     rw [e] at h3
     exact h.cols_ne (List.eq_nil_of_length_eq_zero h3.symm)
@@ -185,7 +216,7 @@ theorem vcfDecode_vcfEncode (cols contigs : List String) (recs : List (String ×
     rcases List.mem_append.1 hl with hl | hl
     · exact headerLines_bytes cols contigs h.cols_wf hcw l hl
     · obtain ⟨r, hrm, rfl⟩ := List.mem_map.1 hl
-      have := recLine_bytes r.1 (hr r hrm).1 r.2.1 r.2.2 (hr r hrm).2.2.2
+      have := recLine_bytes r.1 (hr r hrm).1 r.2.1 r.2.2 (hr r hrm).2.2.2.1
       exact ⟨fun hb => (this _ hb).1 rfl, fun hb => (this _ hb).2 rfl⟩
   have h13 : (vcfEncode cols contigs recs).contains 13 = false := by
     rw [vcfEncode_eq_lines]
@@ -198,7 +229,7 @@ theorem vcfDecode_vcfEncode (cols contigs : List String) (recs : List (String ×
     rw [List.append_nil, splitLines_nil, List.append_nil] at this
     rw [vcfEncode_eq_lines, this]
   unfold vcfDecode
-  rw [h13, hsplit, parseVcfHeaderLines_headerLines cols contigs h.cols_ne h.cols_wf hcw]
-  simp [parseVcfRecords_recLines recs hr]
+  rw [h13, hsplit, parseVcfHeaderLines_headerLines cols contigs h.cols_ne h.cols_wf h.cols_nodup hcw]
+  simp [parseVcfRecords_recLines recs cols.length hr]
 
 end Sfs
